@@ -87,6 +87,11 @@ for (const op of ops) {
       if (!route) { out({ ...base, event: 'TsNoRoute', seq: seq.n++, verb: op.verb, path: u.pathname }); continue; }
       const init = { method: op.verb, headers: new Headers() };
       for (const [k, v] of op.headers || []) init.headers.append(k, v);
+      // header values that are not valid UTF-8 arrive base64-encoded; Headers takes byte strings (latin1)
+      for (const [k, v] of op.headersB64 || []) {
+        try { init.headers.append(k, Buffer.from(v, 'base64').toString('latin1')); }
+        catch (e) { out({ ...base, event: 'TsHeaderRefused', seq: seq.n++, header: k, detail: String(e) }); }
+      }
       if (!op.noBody && op.verb !== 'GET' && op.verb !== 'HEAD') init.body = unb64(op.bodyB64);
       const req = new Request(u.href, init);
       let resp;
